@@ -298,7 +298,7 @@ def pit_oracle(case):
 def unif_case(draw, tier):
     n = draw(st.integers(1, 400 if tier == "thorough" else 120))
     shape = draw(st.sampled_from(["uniform", "ushape", "spike", "onesided",
-                                  "edge"]))
+                                  "edge", "regular", "regular"]))
     us = [draw(unit) for _ in range(n)]
     if shape == "uniform":
         v = us
@@ -308,6 +308,13 @@ def unif_case(draw, tier):
         v = [0.49 + 0.02 * u for u in us]
     elif shape == "onesided":
         v = [u ** 8 for u in us]
+    elif shape == "regular":
+        # evenly spread values (far more regular than a random sample):
+        # plotting positions with a small jitter
+        jit = draw(st.sampled_from([0., 0., 0.05, 0.3]))
+        cst = draw(st.sampled_from([0.5, 0.3, 0.0]))
+        v = [(i + 1 - cst + jit * (u - 0.5)) / (n + 1 - 2 * cst)
+             for i, u in enumerate(us)]
     else:
         v = [draw(st.sampled_from([1e-12, 1 - 1e-12, 1e-300, 0.5, 1 - 1e-16]))
              for _ in us]
